@@ -123,6 +123,81 @@ def case_term(cid, tr):
             f"{clist(ps, lambda p: clist(p, cnat))} {clist(tr['batches'], lambda p: clist(p, cnat))}")
 
 
+# ---- generators with residual-adaptive refinement configured: the points an epoch runs over are the ACTIVE ones ----
+def refined_trace(cfg):
+    """real init_rar + k real refinement steps, then draws; reshuffles are recognised by the change of the
+    generator's key (a reshuffle may leave the order unchanged)"""
+    jax, jnp, np, eqx, jinns = jx()
+    from jinns.solver._rar import init_rar, trigger_rar
+    from rarlib import problem, generator
+    kind, which = cfg["kind"], cfg["which"]
+    loss, P = problem(kind, 2)
+    g = generator(kind, cfg)
+    g, st, sf = init_rar(g)
+    for i in range(cfg["steps"]):
+        _, _, g = trigger_rar(i, loss, P, g, st, sf)
+    if which == "t":
+        store_of, p_of, draw, b = (lambda g: g.times), (lambda g: g.p_times), (lambda g: g.temporal_batch()), cfg["bt"]
+    else:
+        store_of, p_of, draw, b = (lambda g: g.omega), (lambda g: g.p_omega), (lambda g: g.inside_batch()), cfg["bx"]
+    s0 = rows(store_of(g))
+    ident = {r: i for i, r in enumerate(s0)}
+    active = sorted(ident[r] for r, p in zip(s0, np.asarray(p_of(g)).tolist()) if p != 0)
+    batches, resh = [], []
+    key = np.asarray(jax.random.key_data(g.key) if hasattr(jax.random, "key_data") else g.key).tolist()
+    for _ in range(cfg["calls"]):
+        g, bt = draw(g)
+        k2 = np.asarray(jax.random.key_data(g.key) if hasattr(jax.random, "key_data") else g.key).tolist()
+        resh.append(k2 != key); key = k2
+        batches.append([ident.get(r, -1) for r in rows(bt)])
+    return dict(distinct=len(ident) == len(s0), active=active, b=b, steps_done=int(g.rar_iter_nb), batches=batches, reshuffled=resh,
+                store_size=len(s0))
+
+
+def refined_oracle(cfg, tr):
+    fails = []
+    A, b = set(tr["active"]), tr["b"]
+    n_eff = len(A)
+    start, sel = (cfg["nt_start"], cfg["sel_t"]) if cfg["which"] == "t" else (cfg["n_start"], cfg["sel_x"])
+    if n_eff != start + tr["steps_done"] * sel:
+        return fails                         # the bookkeeping of the refinement itself is C16's business
+    e = -(-n_eff // b)
+    R = [k for k, r in enumerate(tr["reshuffled"]) if r]
+    if not R:
+        return [f"no reshuffle in {len(tr['batches'])} draws although only {n_eff} points are active (batch size {b})"]
+    for k0, k1 in zip(R, R[1:] + [None]):
+        ep = tr["batches"][k0:k1]
+        if k1 is None and len(ep) <= e:
+            continue                         # last epoch still running
+        if len(ep) != e:
+            fails.append(f"epoch starting at draw {k0} lasted {len(ep)}{'+' if k1 is None else ''} draws; {n_eff} active points and batch size {b} make {e}")
+            continue
+        flat = [i for bt in ep for i in bt]
+        if not A <= set(flat):
+            fails.append(f"epoch starting at draw {k0}: active points {sorted(A - set(flat))} not served")
+        if n_eff % b == 0 and (len(set(flat)) != len(flat) or not set(flat) <= A):
+            fails.append(f"epoch starting at draw {k0}: batch size divides the {n_eff} active points, yet a point is served twice or an inactive one is served ({ep})")
+    return fails
+
+
+def refined_cfgs(tier, rng):
+    out = []
+    reps = 3 if tier == "thorough" else 1
+    for _ in range(reps):
+        for kind, which in (("ode", "t"), ("statio", "x"), ("nonstatio", "t"), ("nonstatio", "x")):
+            for steps in (1, 2):
+                sel = 1 if (kind, which) == ("nonstatio", "x") else rng.randint(1, 2)   # the non-stationary step may pick one space point twice (rows are told apart by value)
+                b = 2
+                start = rng.choice([2, 4]) if rng.random() < 0.6 else 3
+                cand = sel + rng.randint(2, 4)           # candidates drawn per step differ from the points added
+                n = start + 3 * sel + rng.randint(0, 1)
+                cfg = dict(kind=kind, which=which, start=0, every=1, steps=steps, dim=2, seed=rng.randrange(1 << 30),
+                           sel_t=sel, sel_x=sel, cand_t=cand, cand_x=cand, nt_start=start, n_start=start, nt=n, n=n, bt=b, bx=b)
+                cfg["calls"] = 3 * (-(-(start + steps * sel) // b)) + 1
+                out.append(cfg)
+    return out
+
+
 def scopes(tier, rng):
     full = [(n, b) for n in range(1, 9) for b in range(1, n + 1)]
     if tier == "thorough":
@@ -159,14 +234,29 @@ def generate(tier, seed, casedir, variant):
             nontrivial.add((kind, n, b))
         if len(samples) < 3:
             samples.append(dict(meta[cid], batches=tr["batches"][:6]))
+    nref = 0
+    for cfg in refined_cfgs(tier, rng):
+        tr = refined_trace(cfg)
+        if not tr["distinct"]:
+            continue
+        nref += 1
+        dist["refined_" + cfg["kind"] + "_" + cfg["which"]] = dist.get("refined_" + cfg["kind"] + "_" + cfg["which"], 0) + 1
+        for f in refined_oracle(cfg, tr):
+            viol.append({"detail": f, "case": dict(cfg, refined=True, batches=tr["batches"], active=tr["active"])})
     write_cases(casedir, "C09", "R_C09", variant, cases)
     return dict(meta=meta, oracle_violations=viol, evaluations=len(cases), distinct_nontrivial=len(nontrivial),
-                rule="(generator kind, n, b) with n <= 8, b <= n, history of 3 epochs + 1 calls, a third of the histories drawn under jax.jit in the library's default 32-bit mode; non-trivial = at least two batches per epoch; distinct = distinct (kind, n, b)",
-                samples=samples, distribution=dist, oracle_checks=len(cases), exhaustive=(tier == "thorough"))
+                rule="(generator kind, n, b) with n <= 8, b <= n, history of 3 epochs + 1 calls, a third of the histories drawn under jax.jit in the library's default 32-bit mode; plus generators with refinement configured after 1-2 real refinement steps (oracle only: the epoch runs over the active points); non-trivial = at least two batches per epoch; distinct = distinct (kind, n, b)",
+                samples=samples, distribution=dist, oracle_checks=len(cases) + nref, exhaustive=(tier == "thorough"))
 
 
 def replay(rep, casedir, variant):
     c = rep["case"]
+    if c.get("refined"):
+        cfg = {k: v for k, v in c.items() if k not in ("refined", "batches", "active")}
+        tr = refined_trace(cfg)
+        viol = [{"detail": f, "case": dict(cfg, refined=True, batches=tr["batches"], active=tr["active"])} for f in refined_oracle(cfg, tr)]
+        write_cases(casedir, "C09", "R_C09", variant, [])
+        return dict(meta={}, oracle_violations=viol, evaluations=0, distinct_nontrivial=0, rule="replay", samples=[cfg])
     tr = trace(c["kind"], c["n"], c["b"], c["calls"], c["seed"], c.get("method", "uniform"), c.get("mode", "eager64"))
     viol = [{"detail": f, "case": dict(c, batches=tr["batches"])} for f in oracle(tr)]
     write_cases(casedir, "C09", "R_C09", variant, [case_term(0, tr)])
